@@ -110,6 +110,15 @@ func (e *env) entries() []entry {
 		},
 		func() (patch.Patch, error) { return patch.NewAddAlsoKnownAs(`["https://follower.example/aka"]`) },
 		func() (patch.Patch, error) { return patch.NewRemovePublicKeysPatch(`["verif-no-such-key"]`) },
+		// the ids the fixtures use (k1, k2, s1, s2) once more: the documented way of replacing an entry
+		func() (patch.Patch, error) {
+			return patch.NewAddServiceEndpointsPatch(`[{"id":"s1","type":"T2","serviceEndpoint":"https://again.example/"},{"id":"s2","type":"T2","serviceEndpoint":"https://again.example/"}]`)
+		},
+		func() (patch.Patch, error) {
+			return patch.NewAddPublicKeysPatch(`[{"id":"k1","type":"Ed25519VerificationKey2018","publicKeyBase58":"GY4GunSXBPBfhLCzDL7iGmP5dR3sBDCJZkkaGK8VgYQf"},{"id":"k2","type":"Ed25519VerificationKey2018","publicKeyBase58":"GY4GunSXBPBfhLCzDL7iGmP5dR3sBDCJZkkaGK8VgYQf"}]`)
+		},
+		func() (patch.Patch, error) { return patch.NewRemoveServiceEndpointsPatch(`["s2","s1"]`) },
+		func() (patch.Patch, error) { return patch.NewRemovePublicKeysPatch(`["k2","k1"]`) },
 	} {
 		if f, err := mk(); err == nil {
 			followers = append(followers, f)
